@@ -15,6 +15,13 @@ MAINT_NOTE = ("Trusted: Coq kernel; extraction; OCaml replayer; Go harness; the 
 MAINT_TECH = "Coq proof (loop-step lemmas, invariants) over an executable policy/wheel model + closed-loop model/implementation replay with internal-state audit"
 
 TEXTS = {
+    "C15": dict(text="Coq theorem: the SWAR search (markZeroBytes over meta xor broadcast(h2)) marks every matching byte of every 64-bit word, so a bound key's slot is always visited. Executable Coq model of the "
+                     "table (meta words, chains, grow/shrink/clear, per-table seeds) compared call by call with the implementation: results, update-function invocations and arguments, size, table length, per-bucket "
+                     "layout and exact iteration order. Concurrent lookups/updates/iteration during resizes are checked by implementation oracles (stable keys always found, counters exact, iteration yields each stable key once). "
+                     "The all-sequences refinement to a finite map and the concurrent theorems of the design are not proved in this revision.",
+               design_ref="DESIGN.md section 5, C15",
+               note="Trusted: Coq kernel, extraction, OCaml replayer, Go harness, verif exports of internal/hashmap. maphash is an input. The concurrent part is testing with property oracles, not proof.",
+               technique="Coq proof of the SWAR kernel + executable table model with call-by-call correspondence; concurrent oracles on free-running executions"),
     "C16": dict(text="Executable Coq model of the chunked MPSC queue (push split into reserve/publish) compared with the implementation after every call over all capacity pairs and growth steps, including "
                      "producer-parked states; Coq lemmas: refusal only when full, empty only when caught up, the consumer waits for a reserved slot, no phantom element. The all-sequences FIFO "
                      "refinement is not yet a Coq theorem (C16_seq_fifo pending; theorems named _partial).",
